@@ -33,7 +33,7 @@ pyidx = slice(*idx) if isinstance(idx, tuple) else idx
 if isinstance(idx, tuple) and idx[2] == 'absent': pyidx = slice(idx[0], idx[1]); idx = (idx[0], idx[1], None)
 try:
   if mode == 'get':
-    r = x[pyidx]; got = ('val', int(r._uint), r.nbits) if r is not x else ('aliases the value read',)
+    r = x[pyidx]; got = ('val', int(r._uint), r.nbits) if (r is not x and x[pyidx] is not r) else ('aliases the value read or an earlier result',)
   else:
     v = Bits(V[1], V[2]) if isinstance(V, tuple) else V
     x[pyidx] = v; got = ('val', int(x._uint), x.nbits)
@@ -116,7 +116,7 @@ def item_index(it):
     x = sp.PB._new_valid_bits(n, sx)
     if mode == 'get':
       r = x[mkidx()]
-      return {'r': r, 'fresh': r is not x}
+      return {'r': r, 'fresh': r is not x and x[mkidx()] is not r}      # ... nor an earlier result of the same read (values are mutable)
     v = sv if vk == 'int' else sp.PB._new_valid_bits(m, sv)
     x[mkidx()] = v
     return {'x': x}
